@@ -961,7 +961,7 @@ impl Sim {
         // C19: what the replica answers to hello notifications still follows its committed graph.
         for p in 0..self.reps.len() {
             if p != r && !self.crashed[p] && self.has_graph(p) {
-                self.step_hello(r, p);
+                self.step_hello(r, p, None);
             }
         }
         if before.is_some() {
